@@ -99,6 +99,7 @@ impl Property for P {
                                 gap_ms,
                             })
                             .collect(),
+                        realtime_ms: 0,
                     })
             })
             .boxed()
